@@ -20,7 +20,7 @@
     NOT covered by a theorem (correspondence + oracle only, see TESTED_NOT_PROVED in harness/props/C04.py): the
     "all centre hydrogens explicit" branch (default mode: _strip_explicit_h, hydrogen expansion, _explicit_h). *)
 From Coq Require Import List NArith ZArith Bool.
-From SK Require Import lib.Tok lib.LGraph model.C03_Model model.C04_Model proof.C04_Check proof.C04_Proof proof.C04_Examples.
+From SK Require Import lib.Tok lib.LGraph model.C03_Model model.C04_Model proof.C04_Any proof.C04_Check proof.C04_Proof proof.C04_Examples.
 Import ListNotations.
 Local Open Scope Z_scope.
 
@@ -86,6 +86,16 @@ Theorem C04_identity_glue_any_rule : forall (A B : hostg) (rc : its),
 Proof. exact glue_any_rule. Qed.
 Print Assumptions C04_identity_glue_any_rule.
 
+(** ... and so does the identity composed with any symmetry of that rule ([rule_aut rc s s']: a bijection of the rule's
+    atoms with inverse [s'] preserving both tuples of every atom and the label of every bond; [aut_map rc s] sends
+    pattern atom n to substrate atom s n): what the pruning by rule automorphisms may keep instead of the identity *)
+Theorem C04_identity_glue_any_rule_symmetric : forall (A B : hostg) (rc : its) (s s' : N -> N),
+  pair_wfb A B = true -> describesb A B rc = true -> rule_aut rc s s' ->
+  match_rcb A rc (aut_map rc s) = true /\
+  exists T : its, glue A rc (aut_map rc s) = Some T /\ regen_exact T A B = true.
+Proof. exact glue_any_rule_symmetric. Qed.
+Print Assumptions C04_identity_glue_any_rule_symmetric.
+
 (** PARTIAL.  Full clause wanted: the reaction is among the reactor's results.  Proved: for ANY list of mappings the
     pruning keeps, if it contains the identity then its_list contains an ITS that decomposes to the reaction.  Missing
     (tested by the oracle on every run): (i) the matcher returns the identity among the raw matches -- by
@@ -100,3 +110,18 @@ Theorem C04_in_results_partial : forall (core invert : bool) (G H : hostg) (kept
     regen_exact T (if invert then H else G) (if invert then G else H) = true.
 Proof. exact in_results_partial_all. Qed.
 Print Assumptions C04_in_results_partial.
+
+(** PARTIAL, one premise closer: the pruning premise in exactly the form C11 proves it (C11_prune_complete_aut: every raw
+    match is a kept match composed with a label-preserving automorphism of the rule centre): if the kept list contains
+    the identity composed with a symmetry of the rule, its_list contains an ITS that decomposes to the reaction.  Still
+    premises: the identity is among the raw matches (C04_identity_match + completeness of the engine, C06_all_exact /
+    C06_comp_spec / C06_bt_spec, whose graphs and mappings live in another model: the translation of [match_okb] into
+    C06's [is_mono] and of [rule_aut] into C11's [is_automorphism] is not written), and RDKit serialisation. *)
+Theorem C04_in_results_symmetric : forall (core invert : bool) (G H : hostg) (s s' : N -> N) (kept : list mapping),
+  pair_wfb G H = true -> no_explicit_H G = true ->
+  (core = true -> centre_carries (its_construct G H) = true) ->
+  rule_aut (template core invert G H) s s' -> In (aut_map (template core invert G H) s) kept ->
+  exists T : its, In (Some T) (its_list core invert G H kept) /\
+    regen_exact T (if invert then H else G) (if invert then G else H) = true.
+Proof. exact in_results_symmetric_all. Qed.
+Print Assumptions C04_in_results_symmetric.
